@@ -21,7 +21,9 @@ use std::sync::{Arc, Mutex};
 use std::task::{Context, Poll};
 use std::time::Duration;
 
-pub const PERIODS_MS: [u64; 5] = [10, 10, 15, 7, 30];
+/// periods in nanoseconds: whole milliseconds, fractional milliseconds, sub-millisecond, whole seconds and a
+/// period with a nanosecond part (the timer must be asked for exactly the period, whatever its unit)
+pub const PERIODS_NS: [u64; 8] = [10_000_000, 10_000_000, 15_000_000, 7_000_000, 30_000_000, 2_750_000, 999_000, 1_000_000_007];
 
 #[derive(Clone, Copy, Debug, Serialize, Deserialize, PartialEq, Eq)]
 pub enum SpawnPlan {
@@ -42,7 +44,7 @@ pub enum CStep {
 
 #[derive(Clone, Debug, Serialize, Deserialize, PartialEq)]
 pub struct ClockScn {
-    /// index into PERIODS_MS per interval source
+    /// index into PERIODS_NS per interval source
     pub periods: Vec<u8>,
     pub sinks: Vec<SinkSpec>,
     pub steps: Vec<CStep>,
@@ -237,7 +239,7 @@ impl VExec {
 pub fn decode_clock(bytes: &[u8]) -> ClockScn {
     let mut d = Dec::new(bytes);
     let n_src = 1 + d.below(3);
-    let periods = (0..n_src).map(|_| d.below(PERIODS_MS.len()) as u8).collect();
+    let periods = (0..n_src).map(|_| d.below(PERIODS_NS.len()) as u8).collect();
     let n_sinks = 1 + d.below(4);
     let sinks = (0..n_sinks)
         .map(|_| match d.below(4) {
@@ -294,7 +296,7 @@ pub fn run_clock(cs: &ClockScn) -> (History, Vec<(u8, SpawnPlan)>) {
     let sources: Vec<Src<usize>> = cs
         .periods
         .iter()
-        .map(|p| Arc::new(callbag::interval(Duration::from_millis(PERIODS_MS[*p as usize % PERIODS_MS.len()]), exec.clone())))
+        .map(|p| Arc::new(callbag::interval(Duration::from_nanos(PERIODS_NS[*p as usize % PERIODS_NS.len()]), exec.clone())))
         .collect();
     let mut probes: Vec<Arc<Probe<usize>>> = vec![];
     let mut subs: Vec<(u8, SpawnPlan)> = vec![];
@@ -372,7 +374,7 @@ pub fn c16(cs: &ClockScn, h: &History, subs: &[(u8, SpawnPlan)]) -> Vec<Finding>
         let Some(sub) = cx.subs.iter().find(|s| s.sink == si as u8) else { continue };
         let edge = cx.probe_edge(sub);
         let downs: Vec<&M> = edge.iter().filter(|e| e.dir == Dir::Down).map(|e| &e.msg).collect();
-        let period_ns = (PERIODS_MS[cs.periods[*src as usize % cs.periods.len()] as usize % PERIODS_MS.len()] * 1_000_000) as i64;
+        let period_ns = PERIODS_NS[cs.periods[*src as usize % cs.periods.len()] as usize % PERIODS_NS.len()] as i64;
         match plan {
             SpawnPlan::ErrSpawn | SpawnPlan::ErrClosed => {
                 let want = if *plan == SpawnPlan::ErrSpawn { ERR_NURSE_SPAWN } else { ERR_NURSE_CLOSED };
@@ -461,7 +463,7 @@ pub fn c16(cs: &ClockScn, h: &History, subs: &[(u8, SpawnPlan)]) -> Vec<Finding>
             problems.push(format!("the sink received {:?} in total; expected the handshake and Data(0..{expect_k})", downs.iter().map(|m| m.short()).collect::<Vec<_>>()));
         }
         if let Some(p) = problems.first() {
-            out.push(finding("C16", "C16:tick-model", format!("subscription {si} (period {} ms): {p}", period_ns / 1_000_000), sub.attach_at));
+            out.push(finding("C16", "C16:tick-model", format!("subscription {si} (period {period_ns} ns): {p}"), sub.attach_at));
         }
     }
     out
